@@ -6,6 +6,9 @@ Bit(x, i) == (x \div (2^i)) % 2                    \* bit i of x, i from 0
 Min(a, b) == IF a < b THEN a ELSE b
 Max(a, b) == IF a > b THEN a ELSE b
 B(p) == IF p THEN 1 ELSE 0
+(* optional field of a cfg record (environment freedoms added later sit behind such flags, so that *)
+(* the configurations written before keep their meaning): 0 if the record does not have it         *)
+Flag(c, name) == IF name \in DOMAIN c THEN c[name] ELSE 0
 
 (* Witnesses against vacuity.  Every contract calls Wit(c, k, name) in the step in which  *)
 (* an interesting event (a completed frame, a reload, a saturation ...) is observed; TLC   *)
